@@ -156,10 +156,10 @@ public:
             unsigned tot = 0; for (unsigned wv : weight) tot += wv; (void)k; unsigned pickv = (unsigned)r.below(tot); size_t ki = 0; for (unsigned acc = 0; ki < NK; ki++) { acc += weight[ki]; if (pickv < acc) break; }
             const char* kind = kinds[ki];
             if (prop == "C14") {      // the scheduler gives the view tasks about half of the steps
-                static const char* vkinds[] = { "itNew", "itStep", "itDetach", "twNew", "twStep", "liNew", "liItem", "idSet", "idGet", "rgNew", "rgSet", "rgOp" };
-                static const unsigned vweight[] = { 4, 14, 1, 4, 14, 3, 8, 3, 4, 4, 12, 10 };
+                static const char* vkinds[] = { "itNew", "itStep", "itDetach", "twNew", "twStep", "liNew", "liItem", "idSet", "idGet", "rgNew", "rgSet", "rgOp", "xpEval", "xpRead" };
+                static const unsigned vweight[] = { 4, 14, 1, 4, 14, 3, 8, 3, 4, 4, 12, 10, 7, 3 };
                 if (i < 4 && r.chance(1, 2)) { static const char* starters[] = { "itNew", "twNew", "liNew", "rgNew" }; kind = starters[r.below(4)]; }
-                else if (r.chance(11, 20)) { unsigned vt = 0; for (unsigned wv : vweight) vt += wv; unsigned pv = (unsigned)r.below(vt); size_t vi = 0; for (unsigned acc = 0; vi < 12; vi++) { acc += vweight[vi]; if (pv < acc) break; } kind = vkinds[vi]; }
+                else if (r.chance(11, 20)) { unsigned vt = 0; for (unsigned wv : vweight) vt += wv; unsigned pv = (unsigned)r.below(vt); size_t vi = 0; for (unsigned acc = 0; vi < 14; vi++) { acc += vweight[vi]; if (pv < acc) break; } kind = vkinds[vi]; }
                 op.set("chk", r.chance(1, 3));
             }
             op.set("k", kind); op.set("a", (long long)r.below(1000)); op.set("b", (long long)r.below(1000)); op.set("c", (long long)r.below(1000)); op.set("s", (int)r.below(11)); op.set("t", (int)r.below(8)); op.set("n", (int)r.below(14)); op.set("m", (int)r.below(8)); op.set("f", r.coin());
